@@ -54,9 +54,18 @@ type step struct {
 	File   string `json:"file"`
 	Notify string `json:"notify"`
 	Adv    int    `json:"adv_ms"`
+	// Recreate scripts the watcher factory for the re-attach attempts that follow a dropped
+	// watcher: "" / "ok" = succeeds, "fail1" = the next attempt fails, "fail" = every further
+	// attempt fails (e.g. inotify limits, directory not back).
+	Recreate string `json:"recreate,omitempty"`
 }
 
-func (s step) String() string { return fmt.Sprintf("%s/%s/+%dms", s.File, s.Notify, s.Adv) }
+func (s step) String() string {
+	if s.Recreate != "" {
+		return fmt.Sprintf("%s/%s(recreate:%s)/+%dms", s.File, s.Notify, s.Recreate, s.Adv)
+	}
+	return fmt.Sprintf("%s/%s/+%dms", s.File, s.Notify, s.Adv)
+}
 
 type fakeWatcher struct {
 	ev     chan fsnotify.Event
@@ -73,6 +82,7 @@ type scenario struct {
 	Initial  string // "" = file absent when the watch starts
 	CbErr    bool   // callback rejects every candidate
 	Replace  bool   // use atomic replace instead of in-place writes
+	Faults   bool   // watcher-drop scenario: reduced notification alphabet + scripted re-creation
 	Advances []int
 }
 
@@ -93,15 +103,31 @@ func alphabet(sc scenario, thorough bool) []step {
 		writes = []string{fReplA, fReplB}
 	}
 	files := append(writes, fDelete)
+	if sc.Faults {
+		// the watcher is dropped by each of the three triggers x re-creation {succeeds, fails once,
+		// fails for the rest of the run}; file operations (notified or not) before / after
+		for _, adv := range sc.Advances {
+			for _, f := range files {
+				ops = append(ops, step{File: f, Notify: nDeliver, Adv: adv}, step{File: f, Notify: nDrop, Adv: adv})
+			}
+			ops = append(ops, step{File: fNone, Notify: nNone, Adv: adv})
+			for _, trig := range []string{nErr, nClosed, nDirGone} {
+				for _, rc := range []string{"ok", "fail1", "fail"} {
+					ops = append(ops, step{File: fNone, Notify: trig, Adv: adv, Recreate: rc})
+				}
+			}
+		}
+		return ops
+	}
 	for _, adv := range sc.Advances {
 		for _, f := range files {
 			for _, n := range []string{nDeliver, nDrop, nDup, nDelay} {
-				ops = append(ops, step{f, n, adv})
+				ops = append(ops, step{File: f, Notify: n, Adv: adv})
 			}
 		}
-		ops = append(ops, step{fNone, nNone, adv}, step{fNone, nDeliver, adv}, step{fNone, nErr, adv})
+		ops = append(ops, step{File: fNone, Notify: nNone, Adv: adv}, step{File: fNone, Notify: nDeliver, Adv: adv}, step{File: fNone, Notify: nErr, Adv: adv})
 		if thorough {
-			ops = append(ops, step{fNone, nClosed, adv}, step{fNone, nDirGone, adv})
+			ops = append(ops, step{File: fNone, Notify: nClosed, Adv: adv}, step{File: fNone, Notify: nDirGone, Adv: adv})
 		}
 	}
 	return ops
@@ -139,7 +165,15 @@ func runHistory(t *testing.T, sc scenario, h []step) (out bfs.Outcome) {
 		start := time.Now()
 		var calls []cbCall
 		var cur *fakeWatcher
+		created, failLeft := 0, 0 // failLeft: re-creation attempts that still fail (-1 = all)
 		newWatcher := func(string) (eventWatcher, error) {
+			if created > 0 && failLeft != 0 {
+				if failLeft > 0 {
+					failLeft--
+				}
+				return nil, errors.New("scripted: watcher cannot be re-created")
+			}
+			created++
 			cur = &fakeWatcher{ev: make(chan fsnotify.Event, 8), er: make(chan error, 2)}
 			return cur, nil
 		}
@@ -203,6 +237,14 @@ func runHistory(t *testing.T, sc scenario, h []step) (out bfs.Outcome) {
 				send(d)
 			}
 			delayed = nil
+			switch s.Recreate {
+			case "fail1":
+				failLeft = 1
+			case "fail":
+				failLeft = -1
+			case "ok":
+				failLeft = 0
+			}
 			switch s.Notify {
 			case nDeliver:
 				send(e)
@@ -293,6 +335,7 @@ var scenarios = []scenario{
 	{Name: "initially-absent", Initial: "", Advances: []int{1, debounceMs + 1, tickMs + 1}},
 	{Name: "callback-rejects", Initial: "A", CbErr: true, Advances: []int{1, debounceMs - 1, tickMs + 1}},
 	{Name: "atomic-replace", Initial: "A", Replace: true, Advances: []int{1, debounceMs - 1, tickMs + 1}},
+	{Name: "watcher-dropped", Initial: "A", Faults: true, Advances: []int{1, debounceMs + 1, tickMs + 1}},
 }
 
 func TestVerif(t *testing.T) {
@@ -321,8 +364,11 @@ func TestVerif(t *testing.T) {
 		for i, sc := range scenarios {
 			sc := sc
 			depth := 2
-			if i == 0 || r.Thorough() {
+			if i == 0 || sc.Faults || r.Thorough() {
 				depth = 3
+			}
+			if sc.Faults && r.Thorough() {
+				depth = 4
 			}
 			res := bfs.Explore(bfs.Config[step]{Name: sc.Name, Ops: alphabet(sc, r.Thorough()), Depth: depth,
 				Shard: r.Shard, NShards: r.NShards, Deadline: r.DeadlineTime(),
